@@ -24,8 +24,8 @@ from .. import core, docs, tree
 PROPERTY = 'C13'
 D = decimal.Decimal
 
-LITS = ['1', '2.5', '0', '1,000']
-LITS_R = ['2.5', '0']            # reduced literal set (one non-zero, one zero) for the widest pair/chain products
+LITS = ['3', '2.5', '0', '1,000']     # 3: quotients that are inexact in decimal arithmetic (10/3-style rounding)
+LITS_R = ['3', '0']            # reduced literal set (one non-zero, one zero) for the widest pair/chain products
 MARK = '~'                       # blank slot around a binary operator
 SAME = 'the-same-object-as-the-left-operand'
 
@@ -661,7 +661,7 @@ def main(run: core.Run) -> None:
             'operator applications: the set of <= 2-node texts has 1588 members (3100 with both spacings), not ~150; the full '
             'E2 x E2 product (2.5 M ordered pairs x 8 forms) is outside the budget. Enumerated instead: E<=1 x E<=1 in both '
             'spacings, all no-blank pairs with node counts (2,<=1) and (<=1,2) over all four literals, and all (2,2) pairs over '
-            f'the literals {LITS_R}. Not enumerated: (2,2) pairs involving the literals 1 and 1,000, and spaced renderings of '
+            f'the literals {LITS_R}. Not enumerated: (2,2) pairs involving the literals 2.5 and 1,000, and spaced renderings of '
             '2-node operands in pairs (they are covered as scalar/unary operands).')
         run.caps_hit.append(
             f'chains: a, b and c range over the <= 1-node texts over the literals {LITS_R} (24 texts each, all 16 operator '
